@@ -199,6 +199,10 @@ func (e *Exec) load(st *State, pv Val, ty types.Type) Val {
 		return Val{T: t}
 	case pGlobal:
 		cur := e.heapGet(st, "G_"+p.gname, e.tm.Sort(p.gtyp))
+		if p.gNonNil && len(p.path) == 0 && cur.kind == kVar {
+			e.c.AddFact(cur, e.c.Gt(cur, e.c.Int(0)))
+			e.assumed["package-level error variables initialised with errors.New/fmt.Errorf are non-nil and never reassigned"] = true
+		}
 		t, ety := e.pathGet(cur, p.gtyp, p.path)
 		return Val{T: e.typed(t, ety)}
 	case pField:
@@ -279,4 +283,44 @@ func (e *Exec) fieldAddr(st *State, x Val, styp types.Type, fidx int) Val {
 		return Val{T: e.sub(x.T, fidx)}
 	}
 	return Val{P: &Ptr{kind: pField, obj: x.T, styp: styp, fidx: fidx}}
+}
+
+// oldRefs: every reference contained in value t of type ty denotes an object that exists already
+// (id <= allocTop); sub-object refs are negative and satisfy this trivially.
+func (e *Exec) oldRefs(st *State, t *Term, ty types.Type) *Term {
+	c := e.c
+	if t.bound {
+		return c.True()
+	}
+	switch u := ty.Underlying().(type) {
+	case *types.Pointer, *types.Map, *types.Chan:
+		return c.Le(t, st.allocTop)
+	case *types.Slice:
+		return c.Le(e.tm.SliceBase(t), st.allocTop)
+	case *types.Struct:
+		si := e.tm.Struct(ty)
+		var fs []*Term
+		for i, f := range si.fields {
+			if hasRefs(f.typ) {
+				fs = append(fs, e.oldRefs(st, c.Sel(f.sel, f.sort, i, si.ctor, t), f.typ))
+			}
+		}
+		_ = u
+		return c.And(fs...)
+	}
+	return c.True()
+}
+
+func hasRefs(ty types.Type) bool {
+	switch u := ty.Underlying().(type) {
+	case *types.Pointer, *types.Map, *types.Chan, *types.Slice:
+		return true
+	case *types.Struct:
+		for i := 0; i < u.NumFields(); i++ {
+			if hasRefs(u.Field(i).Type()) {
+				return true
+			}
+		}
+	}
+	return false
 }
